@@ -325,6 +325,10 @@ let run_case op t =
       let a = cat_of_code (next_int t) in
       ( join [ "ok"; b2s (refwrap_ctor_wf_m false a); b2s (refwrap_ctor_wf_m true a); b2s (ref_wf_m a); b2s (cref_wf_m a) ],
         join [ "ok"; b2s (refwrap_ctor_wf_spec false a); b2s (refwrap_ctor_wf_spec true a); b2s (ref_wf_spec a); b2s (cref_wf_spec a) ] )
+  | "tinit" ->
+      let n = next_z t in
+      let pr l = join ("ok" :: List.map str_of_z l) in
+      (pr (tuple_init_m n), pr (tuple_init_spec n))
   | "prelnan" ->
       (* members are doubles; token 777777 is NaN (None).  model: pair.hpp's definitions over the partial order;
          spec: the C++20 relations synthesised from operator<=> *)
